@@ -1106,6 +1106,15 @@ impl Machine for Mach {
         } else if ctx.audits {
             self.audit_impl(Some(ins), model, ctx);
         }
+        if matches!(ins, Instr::Dddmp { .. }) {
+            // C15: whatever an import leaves behind (also of a damaged file it accepted) must be a
+            // well-formed, canonical diagram
+            for v in ctx.violations.iter_mut().skip(nv) {
+                if !v.props.iter().any(|p| p == "C15") {
+                    v.props.push("C15".into());
+                }
+            }
+        }
         if KIND == Kind::Zbdd {
             // C09: the Boolean view of ZBDD handles is part of the family-semantics property
             for v in ctx.violations.iter_mut().skip(nv) {
@@ -1176,6 +1185,23 @@ impl Machine for Mach {
             (m.num_inner_nodes(), m.num_terminals())
         });
         let writes = model.eval(ins);
+        let inputs = {
+            let mut h = crate::rng::Fnv::default();
+            h.u64(model.n as u64);
+            for v in &model.order {
+                h.u64(*v as u64);
+            }
+            for r in &keep {
+                h.u64(model.reg(*r).map(|d| d.digest()).unwrap_or(0));
+            }
+            if let Some(sl) = ins.subst_slot() {
+                for (v, d) in model.substs[sl as usize].iter().flatten() {
+                    h.u64(*v as u64);
+                    h.u64(d.digest());
+                }
+            }
+            h.0
+        };
         self.step(ins, model, ctx);
         let (after, after_terms) = self.mref.with_manager_shared(|m| (m.num_inner_nodes(), m.num_terminals()));
         let ok = match &writes {
@@ -1188,6 +1214,7 @@ impl Machine for Mach {
             live_terms,
             delta_terms: after_terms.saturating_sub(live_terms),
             ok,
+            inputs,
         })
     }
 }
